@@ -280,6 +280,9 @@ pub fn drive(prop : &str)
             found.extend(obs.online.clone());
             let (v, handoffs) = world::m_handoff(&obs);
             found.extend(v);
+            let (v, windows) = world::m_stable(&obs);
+            found.extend(v);
+            if prop == "C03" { tally.counts.add("command_windows_checked_for_source_stability", windows as u64); }
             let fail = world::m_fail(&obs);
             let fail_clean = fail.len() == 0;
             found.extend(fail);
